@@ -140,7 +140,8 @@ pub fn decode(bytes: &[u8]) -> Case {
         let k = if all_w {
             4 + u.below(2)
         } else if repeated {
-            u.weighted(&[3, 3, 3])
+            // commands under many/some only make sense as adjacent blocks
+            u.weighted(&[3, 3, 3, 3])
         } else {
             u.weighted(&[3, 3, 3, 2, 1, 1])
         };
@@ -173,7 +174,7 @@ pub fn decode(bytes: &[u8]) -> Case {
                     shorts: Vec::new(),
                     longs: Vec::new(),
                     help: None,
-                    adjacent: false,
+                    adjacent: repeated || u.chance(40),
                     level: Level::simple(Node::Seq(own)),
                 })
             }
@@ -221,9 +222,22 @@ pub fn decode(bytes: &[u8]) -> Case {
         }
     }
     let mut cmd_tail: Vec<Atom> = Vec::new();
-    let mut push_inst = |inst: Vec<Atom>, floating: &mut Vec<Vec<Atom>>, cmd_tail: &mut Vec<Atom>| {
-        if matches!(inst.first(), Some(Atom::Cmd(_))) {
-            cmd_tail.extend(inst);
+    let adjacent_names: Vec<String> = alts
+        .iter()
+        .filter_map(|a| match a {
+            AltKind::C(c) if c.adjacent => Some(c.all_names()),
+            _ => None,
+        })
+        .flatten()
+        .collect();
+    let push_inst = |inst: Vec<Atom>, floating: &mut Vec<Vec<Atom>>, cmd_tail: &mut Vec<Atom>| {
+        if let Some(Atom::Cmd(name)) = inst.first() {
+            if adjacent_names.contains(name) {
+                // the block of an adjacent command stays contiguous but may stand anywhere
+                floating.push(inst);
+            } else {
+                cmd_tail.extend(inst);
+            }
         } else {
             for a in inst {
                 floating.push(vec![a]);
@@ -393,6 +407,31 @@ pub fn expected(case: &Case) -> Option<V> {
                 // the command name must be the first item not used by anything before it
                 let first_free = (0..case.atoms.len()).find(|i| !used[*i])?;
                 match &case.atoms[first_free] {
+                    Atom::Cmd(name) if c.all_names().contains(name) && c.adjacent => {
+                        // the block: the name and the command's own items directly behind it
+                        let mut ps = vec![first_free];
+                        let own = c.level.body.named_leaves(false);
+                        let mut seen = Vec::new();
+                        for (i, a) in case.atoms.iter().enumerate().skip(first_free + 1) {
+                            match a {
+                                Atom::Occ(o)
+                                    if !used[i]
+                                        && own.iter().any(|l| l.id == o.leaf)
+                                        && !seen.contains(&o.leaf) =>
+                                {
+                                    seen.push(o.leaf);
+                                    ps.push(i);
+                                }
+                                _ => break,
+                            }
+                        }
+                        let mut inner: Vec<V> =
+                            own.iter().map(|l| V::Bool(seen.contains(&l.id))).collect();
+                        if own.is_empty() {
+                            inner.push(V::Const("none".into()));
+                        }
+                        Some((ps, V::Cmd(c.name.clone(), Box::new(V::Tup(inner)))))
+                    }
                     Atom::Cmd(name) if c.all_names().contains(name) => {
                         // everything to the right must belong to the command
                         let mut ps = vec![first_free];
@@ -540,8 +579,9 @@ impl Prop for C07 {
     }
     fn rule(&self) -> &'static str {
         "choice bytes -> a choice over 2-4 alternatives with disjoint names (required flag, \
-         argument, group of 2-3 required named items, command, or an always-succeeding switch / \
-         optional argument), bare, optional, many or some, next to 0-3 sibling fields -> line built \
+         argument, group of 2-3 required named items, command (plain, or adjacent - the only kind \
+         under many/some - whose block may stand anywhere on the line), or an always-succeeding \
+         switch / optional argument), bare, optional, many or some, next to 0-3 sibling fields -> line built \
          from a scenario (no item, one complete instance, partial group, two different \
          alternatives, same alternative twice; for many/some 0-3 instances, possibly a trailing \
          partial group) with all items shuffled (group members interleave freely) and spelled \
